@@ -5,7 +5,7 @@ from typing import Any
 
 from ..absint import AObj
 from ..card import D, domain_wf, kind
-from ..codec import NAME_CLASSES, ctc_model, kind_model, name_model, run_writer
+from ..codec import NAME_CLASSES, stress_trees, ctc_model, kind_model, name_model, run_writer
 from ..core import AnalysisError, Ctx, loc
 from ..exports import ExportError, PLDocument, SXFM, configurations, model_names, model_valid
 from ..logic import BINARY_LOGICAL
@@ -113,6 +113,8 @@ def check(pm: ProgramModel, ctx: Ctx) -> None:
         validate(ctx, pm, writer, f"{P}-CTC", "operator:NOT", ctc_model(mb, [("c", n(o("NOT"), n("A"))),
                                                                                 ("d", n(o("NOT"), n(o("NOT"), n("B"))))]),
                  "negation constraints")
+        for nm, tree in stress_trees(mb):
+            validate(ctx, pm, writer, f"{P}-CTC", f"shape:{nm}", ctc_model(mb, [("c", tree)]), f"constraint shape {nm}")
         validate(ctx, pm, writer, f"{P}-CTC", "single-literal", ctc_model(mb, [("c", n("B"))]), "single-literal constraint")
         for cls_ in ("space", "punct", "unicode"):
             validate(ctx, pm, writer, f"{P}-ONEENC", f"name:{cls_}", name_model(mb, NAME_CLASSES[cls_]),
